@@ -40,6 +40,8 @@ void vf_dfs_unit(const vf_alphabet* a, unsigned k, uint64_t unit, size_t L, uint
 typedef void (*vf_bytes_fn)(const uint8_t* b, size_t n, void* ctx);
 uint64_t vf_bn_units(void);
 void vf_bn_unit(unsigned nmax, uint64_t unit, vf_bytes_fn fn, void* ctx);
+/* B*(n): as B(n) but a string is extended only while the reference decoder (limit L, allocator cap) still waits for input; same units */
+void vf_bstar_unit(unsigned nmax, uint64_t unit, size_t L, uint64_t cap, vf_bytes_fn fn, void* ctx);
 
 /* neighbours of a head sequence; fn is called with each mutated byte string */
 void vf_neighbours(const vf_seq* s, vf_bytes_fn fn, void* ctx);
